@@ -171,6 +171,35 @@ def run(ctx):
                          "per_run": [{"exc": o["exc"], "run_dir": (o.get("members") or [{}])[0].get("run_dir"), "resolve": o.get("inspect"),
                                       "changed_earlier_files": sorted(p for p, h in o["before"].items() if p != "archive/manifest.json" and o["after"].get(p) != h)[:6]}
                                      for o in r["runs"]]}}
+    # ':last' / ':first' resolved WHILE a run is in progress: a group run whose file name is a results reference to another group,
+    # started in the same second as (or the second after) that group's latest run, on the same or a new instance
+    V1 = [["id", "a"], ["old1", "1"], ["old2", "2"]]
+    V2 = [["id", "a"], ["new1", "7"], ["new2", "8"], ["new3", "9"]]
+    rjobs = []
+    for k in range(12 if quick else 120):
+        t1 = rng.randrange(len(MENU) - 2)
+        t2 = t1 + 1
+        t3 = t2 + rng.choice([0, 0, 1])
+        key = rng.choice(["last", "last", "first"])
+        rjobs.append({"id": 200000 + k, "files": {"f": V1, "f2": V2}, "groups": {"g0": ['~id: a~ $[*][ yes() ]'], "gr": ['~id: a~ $[*][ yes() ]', '~id: b~ $[1*][ @n = count() ]']},
+                      "runs": [{"method": "collect_paths", "pathsname": "g0", "filename": "f", "new_instance": True, "clock": MENU[t1]},
+                               {"method": rng.choice(["collect_paths", "collect_by_line"]), "pathsname": "g0", "filename": "f2", "new_instance": rng.random() < 0.5, "clock": MENU[t2]},
+                               {"method": rng.choice(["collect_paths", "collect_by_line"]), "pathsname": "gr", "filename": f"$g0.results.2026:{key}.a", "new_instance": rng.random() < 0.5,
+                                "clock": MENU[t3]}],
+                      "set_clock": set_clock, "paths_policy": ["raise", "collect"], "policy": ["collect", "print"], "key": key})
+    rres = pmap(ctx, groups.run_history, rjobs, chunksize=2)
+    rfail = []
+    for j, r in zip(rjobs, rres):
+        want = V2 if j["key"] == "last" else V1
+        o = r["runs"][2] if len(r["runs"]) == 3 else None
+        got = None if (o is None or o["exc"] or not o.get("members")) else o["members"][0]["lines"]
+        if r["setup_exc"] or got != want:
+            rfail.append({"runs": [{k2: x[k2] for k2 in ("method", "pathsname", "filename", "new_instance", "clock")} for x in j["runs"]],
+                          "expected_lines": want, "read": got, "exc": r["setup_exc"] or (o and o["exc"])})
+    if rfail:
+        ctx.violation("resolve-in-run", {"what": "a run whose file name is a ':last' / ':first' results reference to another group did not read that group's latest / earliest run "
+                                                 "(the reference is resolved while the run is in progress; here in the same second as, or the second after, the referenced run)",
+                                         "case": rfail[0], "scenarios": len(rfail)})
     spec_bad = sorted(bad["c10_spec"])
     clean_bad = bad["c10_agree false false"]
     explained = {"12h": bad["c10_agree false false"] - bad["c10_agree true false"] if clean_bad else set(),
@@ -210,7 +239,7 @@ def run(ctx):
                                                  ("" if fmt_ok else "; the strftime/strptime format strings in the source changed: %r" % fmts) + "); theorems C10_* are about the model only",
                                          "disagreeing_case": case(i)}, no_input=True)
     ctx.coverage.update({
-        "evaluations": len(jobs), "distinct_nontrivial": len({repr(case(i)["runs"]) for i in range(len(jobs)) if len(jobs[i]["runs"]) >= 2 and not res[i]["setup_exc"]}),
+        "resolve_in_run_scenarios": len(rjobs), "evaluations": len(jobs) + len(rjobs), "distinct_nontrivial": len({repr(case(i)["runs"]) for i in range(len(jobs)) if len(jobs[i]["runs"]) >= 2 and not res[i]["setup_exc"]}),
         "rule": "5 fixed critical histories + random histories of 2-5 runs drawn from {2 named-paths groups (+1 aborting group)} x {new, reused instance} x {collect_paths, collect_by_line, "
                 "fast_forward_paths, next_paths} x an injected clock (non-decreasing picks from 8 instants: 12:59:58, 12:59:59, 13:00:00, 13:00:01, 23:59:59, next day 00:00:00, 00:00:01, 01:00:00; 40% with "
                 "several runs in one second; 30% with an aborted run before the end); after every run: run dir, sha-256 snapshot of the whole archive vs the previous one, ':last'/':first' resolution. "
